@@ -4,7 +4,8 @@ it was on when it had to be killed."""
 import sys
 import time
 
-sys.path.insert(0, "/verif")
+import os
+sys.path.insert(0, os.path.dirname(os.path.dirname(os.path.abspath(__file__))))
 from harness.props import c16  # noqa: E402
 
 
